@@ -121,6 +121,11 @@ c06_inst! {
     c06_step_rto500_rc10_i5 = c06_step(500, 10, 5) unwind 13;
     c06_step_rto500_rc10_i9 = c06_step(500, 10, 9) unwind 13;
     c06_step_rto500_rc10_i10 = c06_step(500, 10, 10) unwind 13;
+    c06_step_rto100_rc5_i1 = c06_step(100, 5, 1) unwind 8;
+    c06_step_rto100_rc5_i3 = c06_step(100, 5, 3) unwind 8;
+    c06_step_rto100_rc5_i5 = c06_step(100, 5, 5) unwind 8;
+    c06_step_rto250_rc4_i2 = c06_step(250, 4, 2) unwind 7;
+    c06_step_rto250_rc4_i4 = c06_step(250, 4, 4) unwind 7;
 }
 
 // the default chain 0/500/1500/3500/7500/15500/31500 ms and failure at 39500 ms, on-time calls
